@@ -264,6 +264,11 @@ def hostile_items(kind, rng, hosted):
             body = {0: b"", 1: bytes([rng.randrange(256)]), 2: bytes(rng.randrange(256) for _ in range(rng.choice([2, 3, 4, 6, 9, 20]))),
                     3: struct.pack(">HHB", 0, 3, 200) + b"\x00\x01", 4: struct.pack(">HHB", 0, 0xFFFF, 0)}[rng.randrange(5)]
             items.append(good(bytes([fc]) + body))
+        elif c < 0.9:
+            # checksum-valid frame whose data-access PDU is internally inconsistent or out of limits (byte count vs quantity,
+            # quantity beyond the limit, bad coil word, address beyond the table): must be refused without touching the store
+            import dmcheck
+            items.append(good(dmcheck.rand_invalid_req(unit_ctx(hosted[0]), rng)))
         else:
             items.append(good(rand_request(rng)))
     if kind == "tcp" and rng.random() < 0.3:
